@@ -862,6 +862,382 @@ def definition_generics_part(check):
     return False
 
 
+# ------------------------------------------------------------------ neighbouring type expressions in one run
+
+def _leaf(rng, pool=None):
+    p = rng.choice(pool or ["u8", "u16", "u32", "i32", "U53", "f64", "bool", "String", "char", "Foo", "Bar", "Item", "T"])
+    return t_path(p, (), q(rng, p) if p != "T" else [])
+
+
+def _small(rng, depth=1):
+    """a small element type (depth <= `depth`)"""
+    if depth <= 0 or rng.random() < 0.5:
+        return _leaf(rng)
+    r = rng.random()
+    x = _small(rng, depth - 1)
+    if r < 0.3:
+        return t_path("Vec", [x])
+    if r < 0.5:
+        return t_path("Option", [x])
+    if r < 0.7:
+        return t_path("HashMap", [_leaf(rng, ["String", "u8", "u32", "Foo"]), x])
+    if r < 0.85:
+        return t_path(rng.choice(["Foo", "Node"]), [x])
+    return ("array", x, rng.choice([1, 2, 3]))
+
+
+def _context(rng):
+    """a type expression with one hole: 0-2 constructors stacked above the place where the members of a family differ"""
+    layers = []
+    for _ in range(rng.choice([0, 0, 1, 1, 1, 2])):
+        r = rng.random()
+        if r < 0.22:
+            layers.append(lambda x: t_path("Vec", [x]))
+        elif r < 0.36:
+            n = rng.choice([1, 2, 3])
+            layers.append(lambda x, n=n: ("array", x, n))
+        elif r < 0.48:
+            layers.append(lambda x: t_path("Option", [x]))
+        elif r < 0.62:
+            k = _leaf(rng, ["String", "u8", "u32", "Foo"])
+            layers.append(lambda x, k=k: t_path("HashMap", [k, x]))
+        elif r < 0.70:
+            v = _leaf(rng)
+            layers.append(lambda x, v=v: t_path("HashMap", [x, v]))
+        elif r < 0.80:
+            layers.append(lambda x: ("ref", ("slice", x), False))
+        elif r < 0.90:
+            n, other = rng.choice(["Foo", "Bar", "Node"]), _leaf(rng)
+            front = rng.random() < 0.5
+            layers.append(lambda x, n=n, other=other, front=front: t_path(n, [x, other] if front else [other, x]))
+        else:
+            sp = rng.choice(["Box", "Arc", "Rc", "Mutex"])
+            layers.append(lambda x, sp=sp: t_path(sp, [x]))
+
+    def fill(x):
+        for l in layers:
+            x = l(x)
+        return x
+    return fill
+
+
+FAMILY_KINDS = ["array-length", "below-option", "generic-arguments", "map-key-value", "element", "sequence-kind", "erased-wrappers",
+                "nesting-depth", "generic-scope"]
+
+
+def family(rng, kind):
+    """type expressions that are equal up to one component (the members of one family are what a translation that remembers
+    too little of an earlier expression would confuse). -> list of syn types (3-7, some of them possibly equal)"""
+    ctx = _context(rng)
+    if kind == "array-length":
+        e = _small(rng, rng.choice([0, 0, 1, 2]))
+        lens = rng.sample([0, 1, 2, 3, 4, 5, 8, 16], rng.randint(3, 5))
+        fill = [("array", e, n) for n in lens]
+    elif kind == "below-option":
+        # Display writes an Option by the outer name of what is below it: Option<Vec<u8>> and Option<Vec<String>> are both `Option<Vec>`
+        outer = rng.choice(["Vec", "HashMap", "user", "array", "Option"])
+        es = [_small(rng, rng.choice([0, 0, 1])) for _ in range(rng.randint(3, 4))]
+        if outer == "Vec":
+            below = [t_path("Vec", [e]) for e in es]
+        elif outer == "HashMap":
+            below = [t_path("HashMap", [t_path("String"), e]) for e in es] + [t_path("HashMap", [t_path("u8"), es[0]])]
+        elif outer == "user":
+            n = rng.choice(["Foo", "Node"])
+            below = [t_path(n, [e]) for e in es] + [t_path(n)]
+        elif outer == "array":
+            below = [("array", e, rng.choice([1, 2, 3])) for e in es]
+        else:
+            below = [t_path("Option", [e]) for e in es]
+        fill = [t_path("Option", [b]) for b in below]
+    elif kind == "generic-arguments":
+        n = rng.choice(USER)
+        a, b, c = _small(rng, 1), _small(rng, 1), _small(rng, 0)
+        fill = [t_path(n, [a]), t_path(n, [b]), t_path(n, [a, b]), t_path(n, [b, a]), t_path(n, [a, b, c]), t_path(n)]
+        if rng.random() < 0.5:
+            fill.append(t_path(rng.choice([u for u in USER if u != n]), [a]))
+        fill = rng.sample(fill, rng.randint(3, len(fill)))
+    elif kind == "map-key-value":
+        a, b = rng.sample(["String", "u8", "u32", "i32", "Foo", "Bar", "char"], 2)
+        a, b = t_path(a), t_path(b)
+        v = _small(rng, 1)
+        fill = [t_path("HashMap", [a, b]), t_path("HashMap", [b, a]), t_path("HashMap", [a, a]), t_path("HashMap", [b, b]),
+                t_path("HashMap", [a, v]), t_path("HashMap", [b, v])]
+        fill = rng.sample(fill, rng.randint(3, len(fill)))
+    elif kind == "element":
+        # several Rust types share one target type (u8/u16/f64 are all `number`), or one outer name
+        pool = [t_path(p) for p in ["u8", "u16", "u32", "i8", "i32", "U53", "I54", "f32", "f64", "bool", "String", "char", "Foo", "Bar", "T"]]
+        pool += [("ref", t_path("str"), False), ("tuple", [])]
+        fill = rng.sample(pool, rng.randint(3, 6))
+    elif kind == "sequence-kind":
+        e = _small(rng, rng.choice([0, 1]))
+        fill = [t_path("Vec", [e]), ("array", e, rng.choice([1, 2, 4])), ("ref", ("slice", e), False), t_path("Box", [("slice", e)]),
+                t_path("Option", [t_path("Vec", [e])]), t_path("Vec", [t_path("Option", [e])]), e]
+        fill = rng.sample(fill, rng.randint(3, len(fill)))
+    elif kind == "erased-wrappers":
+        # references, smart pointers and path qualification disappear: every member must come out like the bare one
+        e = _small(rng, 1)
+        sp = rng.sample(SMART, 3)
+        fill = [e, t_path(sp[0], [e], (), lt=(sp[0] == "Cow")), ("ref", e, False), t_path(sp[1], [t_path(sp[2], [e], (), lt=(sp[2] == "Cow"))], (), lt=(sp[1] == "Cow")),
+                t_path("Option", [e]), t_path("Vec", [e])]
+        if e[0] == "path":
+            fill.append(t_path(e[2], e[3], QUALS.get(e[2], ["crate", "models"]), e[4]))
+        fill = rng.sample(fill, rng.randint(3, len(fill)))
+    elif kind == "nesting-depth":
+        e = _small(rng, 0)
+        w = rng.choice([lambda x: t_path("Vec", [x]), lambda x: ("array", x, 2), lambda x: t_path("Option", [x]),
+                        lambda x: t_path("HashMap", [t_path("String"), x]), lambda x: t_path("Foo", [x])])
+        fill, cur = [], e
+        for _ in range(rng.randint(3, 4)):
+            fill.append(cur)
+            cur = w(cur)
+    elif kind == "generic-scope":
+        # the same spelling under items that do / do not declare `T`: a parameter in one, a user type in the other
+        fill = [t_path("T"), t_path("Vec", [t_path("T")]), t_path("Foo", [t_path("T")]), t_path("HashMap", [t_path("String"), t_path("T")]),
+                t_path("Option", [t_path("T")]), ("array", t_path("T"), 2)]
+        fill = rng.sample(fill, rng.randint(2, 3))
+        fill = fill + fill                       # each spelling twice: once per scope (see neighbour_program)
+    else:
+        raise ValueError(kind)
+    out = [ctx(x) for x in fill]
+    if kind != "generic-scope" and rng.random() < 0.4:
+        out.append(rng.choice(out))              # the very same expression once more
+    return out
+
+
+def translatable(lang, cfg, gens, syn):
+    try:
+        expected(lang, cfg, gens, to_rust(syn))
+        return True
+    except Unsupported:
+        return False
+
+
+def _fname(rank):
+    """a field name that no back end rewrites (no digit, no capital, no underscore) and that sorts like its rank"""
+    return "fz" + chr(97 + rank // 10) + chr(97 + rank % 10)
+
+
+def neighbour_program(rng, members, order, layout, scopes, crates):
+    """one run that translates every member of a family. `order[i]` is the rank of member i: items are declared in that order
+    *and* named so that sorting by name gives that order; fields of one struct follow it too. `layout`: 'fields' = one struct
+    (per crate and scope) holds them all; 'mixed' = fields of two structs, fields of a struct variant of an enum, newtype payloads and
+    alias targets. `scopes[i]`: does the item of member i
+    declare the generic parameter `T`. `crates`: list of crate names the items are dealt to (one name = one file).
+    -> (jobs for l2.requests, sites [(member index, site kind, name, declares T)], names)"""
+    anno = [m_path("typeshare")]
+    ranked = sorted(range(len(members)), key=lambda i: order[i])
+    sites, items = [], []
+    ncr = len(crates)
+    if layout == "fields":
+        # one struct per (scope, crate): in a multi-crate run the fields are dealt round-robin to one struct in each crate
+        groups = {}
+        for pos, i in enumerate(ranked):
+            groups.setdefault((scopes[i], pos % ncr), []).append(i)
+        for (sc, cr), idx in sorted(groups.items(), key=lambda kv: order[kv[1][0]]):
+            fs = []
+            for i in idx:
+                fs.append(field([], _fname(order[i]), members[i]))
+                sites.append((i, "field", _fname(order[i]), sc))
+            items.append((cr, {"kind": "struct", "attrs": anno, "ident": "Z%02dS" % order[idx[0]], "generics": [("ty", "T")] if sc else [],
+                               "fields": ("named", fs)}))
+    else:
+        open_structs = {}
+        for i in ranked:
+            kind = rng.choice(["field", "field", "field2", "vfield", "newtype", "alias"])
+            sc = scopes[i]
+            gens_ = [("ty", "T")] if sc else []
+            cr = rng.randrange(ncr)
+            if kind in ("field", "field2"):
+                key = (kind, sc)
+                if key not in open_structs:
+                    st = {"kind": "struct", "attrs": anno, "ident": "Z%02dS" % order[i], "generics": gens_, "fields": ("named", [])}
+                    open_structs[key] = st
+                    items.append((cr, st))
+                open_structs[key]["fields"][1].append(field([], _fname(order[i]), members[i]))
+                sites.append((i, "field", _fname(order[i]), sc))
+            elif kind == "vfield":
+                # a field of a struct variant of an adjacently tagged enum: every back end writes it like a struct field
+                key = (kind, sc)
+                if key not in open_structs:
+                    en = {"kind": "enum", "attrs": anno + [m_list("serde", [m_nv("tag", lit_s("t")), m_nv("content", lit_s("c"))])],
+                          "ident": "Z%02dE" % order[i], "generics": gens_,
+                          "variants": [{"attrs": [], "ident": "Vzu", "fields": ("unit",)},
+                                       {"attrs": [], "ident": "Vzs", "fields": ("named", [])}]}
+                    open_structs[key] = en
+                    items.append((cr, en))
+                open_structs[key]["variants"][1]["fields"][1].append(field([], _fname(order[i]), members[i]))
+                sites.append((i, "field", _fname(order[i]), sc))
+            elif kind == "newtype":
+                items.append((cr, {"kind": "struct", "attrs": anno, "ident": "Z%02dN" % order[i], "generics": gens_,
+                                   "fields": ("unnamed", [field([], None, members[i])])}))
+                sites.append((i, "newtype", "Z%02dN" % order[i], sc))
+            else:
+                items.append((cr, {"kind": "alias", "attrs": anno, "ident": "Z%02dA" % order[i], "generics": gens_, "ty": members[i]}))
+                sites.append((i, "alias", "Z%02dA" % order[i], sc))
+    names, jobs = set(), []
+    for c, cname in enumerate(crates):
+        f = {"attrs": [], "items": [it for cr, it in items if cr == c]}
+        if not f["items"]:
+            continue
+        if ncr == 1:
+            jobs.append({"crate": cname, "file_name": "lib.rs", "path": "src/lib.rs", "file": f})
+        else:
+            jobs.append({"crate": cname, "file_name": cname + ".out", "path": "%s/src/lib.rs" % cname, "file": f})
+        names |= l2.names_of(f)
+    return jobs, sites, names
+
+
+def site_texts(lang, site, name, pfx, declares_t, lines):
+    """the type expressions written at a use site, read off the generated lines -> list of candidate texts"""
+    cands = []
+    for t in site_templates(lang, site, name, "\x00", pfx):
+        if not declares_t:
+            t = t.replace("<T>", "").replace("[T]", "")
+        pre, post = t.split("\x00")
+        open_end = post.endswith("…")
+        if open_end:
+            post = post[:-1]
+        for l in lines:
+            if not l.startswith(pre):
+                continue
+            if open_end:
+                j = l.find(post, len(pre))
+                while j >= 0:
+                    cands.append(l[len(pre):j])
+                    j = l.find(post, j + 1)
+            elif l.endswith(post) and len(l) >= len(pre) + len(post):
+                cands.append(l[len(pre):len(l) - len(post)])
+    return cands
+
+
+def neighbours_part(check):
+    """*several* type expressions in ONE run (one language instance): families of 3-7 expressions that are equal up to one component
+    (array length, what is below an Option, generic arguments / their order / their number, map key vs value, an element whose
+    neighbours share its target type, Vec / array / slice of one element, erased wrappers and path qualification, nesting depth, the
+    same spelling where `T` is / is not a declared parameter), below a common random context of 0-2 constructors, used as fields of
+    one or two structs, fields of a struct variant of an enum, newtype payloads and alias targets of one program - in one file, or dealt to 2-3 crates of a multi-file run -
+    in a random order and in the reverse order (declaration order and name order agree, so every pair is translated both ways
+    round), all six languages, plain and random configurations (prefix, mapping tables keyed by sub-trees of the members).
+    Demands, for every use site, on the text the implementation wrote there: it parses back to the tree `expected` demands for
+    *that* expression (the translation is a function of the expression, the configuration and the declared parameters - not of
+    what was translated before it), and it equals the translation `format_type` gives the expression alone. The Lean back-end
+    models are run on the same programs."""
+    rng = check.rng
+    rounds = 60 if check.thorough else 8
+    g = Gen(rng)
+    progs = []
+    for rd in range(rounds):
+        for kind in FAMILY_KINDS:
+            for lang in LANGS:
+                members = family(rng, kind)
+                if rng.random() < 0.5:
+                    cfg = cfg_for(lang, prefix=rng.choice(["", "Pf"]))
+                else:
+                    cfg = rand_cfg(rng, lang, rng.choice(members))
+                cfg["version_header"] = False
+                if kind == "generic-scope":
+                    half = len(members) // 2
+                    scopes = [True] * half + [False] * half
+                else:
+                    scopes = [True] * len(members)
+                keep = [i for i, m in enumerate(members) if translatable(lang, cfg, ["T"] if scopes[i] else [], m)]
+                members, scopes = [members[i] for i in keep], [scopes[i] for i in keep]
+                if len(members) < 2:
+                    check.count("neighbours-family-too-small-after-dropping-refused-members")
+                    continue
+                ranks = rng.sample(range(1, 90), len(members))
+                rev = sorted(ranks, reverse=True)
+                rev = {r: rev[sorted(ranks).index(r)] for r in ranks}
+                crates = [""] if rng.random() < 0.6 else rng.sample(["alpha", "beta", "gamma"], rng.randint(2, 3))
+                for layout in ("fields", "mixed"):
+                    for order in (ranks, [rev[r] for r in ranks]):
+                        jobs, sites, names = neighbour_program(rng, members, order, layout, scopes, crates)
+                        progs.append((kind, lang, cfg, members, scopes, order, layout, jobs, sites, names))
+    reqs, alone, allnames = [], [], set()
+    for kind, lang, cfg, members, scopes, order, layout, jobs, sites, names in progs:
+        mreq, rreq, texts = l2.requests(lang, cfg, jobs, g, multi_file=len(jobs) > 1 or jobs[0]["crate"] != "")
+        reqs.append((mreq, rreq, texts))
+        alone += [mk_requests(lang, cfg, ["T"] if sc else [], m)[1] for m, sc in zip(members, scopes)]
+        allnames |= names
+    mans = model([m for m, _, _ in reqs], names=allnames | set(USER))
+    rans = runner([r for _, r, _ in reqs])
+    aans = runner(alone)
+    pos = 0
+    mismatch = None
+    for (kind, lang, cfg, members, scopes, order, layout, jobs, sites, names), (mreq, rreq, texts), ma, ra in zip(progs, reqs, mans, rans):
+        single = aans[pos:pos + len(members)]
+        pos += len(members)
+        check.saw(("neighbours", lang, tuple(texts), json.dumps(cfg, sort_keys=True)), nontrivial=True)
+        check.count("neighbours-programs-" + lang)
+        check.count("neighbours-family-" + kind)
+        check.count("neighbours-layout-" + layout + ("-multi-crate" if len(jobs) > 1 else ""))
+        case = {"lang": lang, "config": cfg, "family": kind, "sources": {j["path"]: t for j, t in zip(jobs, texts)},
+                "members_in_declaration_and_name_order": [render_type(members[i]) for i in sorted(range(len(members)), key=lambda i: order[i])],
+                "request": rreq}
+        ma_n, ra_n = l2.norm(ma), l2.norm(ra)
+        if "ok" in ra:
+            lines = [l.rstrip(",") for name_, text_ in sorted(ra["ok"].items()) for l in text_.split("\n")]
+            pfx = cfg.get("prefix", "")
+            for i, site, name, sc in sites:
+                syn, gens = members[i], (["T"] if sc else [])
+                rust = render_type(syn)
+                a = norm_ans(single[i])
+                check.count("neighbours-sites")
+                cands = site_texts(lang, site, name, pfx, sc, lines)
+                parsed = []
+                for c in cands:
+                    try:
+                        parse_target(lang, c)
+                        parsed.append(c)
+                    except PErr:
+                        pass
+                where = "%s `%s`" % (site, name)
+                if not parsed:
+                    check.violation("%s: no line of the output carries a %s type expression for the %s of type `%s` (candidates %s; alone it "
+                                    "translates to %s)" % (lang, lang, where, rust, cands, a.get("ok", a)),
+                                    case=dict(case, site=name, rust_type=rust), impl=ra, model=ma, failing_input=True)
+                    return True
+                text = parsed[0]
+                probs = oracle(lang, cfg, gens, syn, {"ok": text})
+                wcase = dict(case, site=name, rust_type=rust, written=text, alone=a.get("ok", a))
+                unknown = [p for p, kid in probs if not (kid and check.known(kid, dict(wcase, problem=p)))]
+                if unknown:
+                    others = []
+                    for j in sorted(range(len(members)), key=lambda j: order[j]):
+                        if render_type(members[j]) != rust and render_type(members[j]) not in others:
+                            others.append(render_type(members[j]))
+                    check.violation("%s: in a run that also translates %s, the %s of type `%s` is written `%s` (alone: `%s`): %s"
+                                    % (lang, ", ".join("`%s`" % o for o in others[:6]) + (" .." if len(others) > 6 else ""), where, rust, text,
+                                       a.get("ok", a), unknown[0]),
+                                    case=wcase, impl=ra, model=ma, failing_input=True)
+                    return True
+                if "ok" not in a or a["ok"] != text:
+                    check.violation("%s: the %s of type `%s` is written `%s` inside the program, but `%s` is translated to %s when it is the "
+                                    "only type of the run: the translation depends on what was translated before"
+                                    % (lang, where, rust, text, rust, a.get("ok", a)),
+                                    case=wcase, impl=ra, model=ma, failing_input=True)
+                    return True
+                check.count("neighbours-sites-agree-with-expected-tree-and-alone")
+        else:
+            # every member is translatable (the others were dropped), so the program must be generated
+            check.violation("%s refuses a program all of whose types it translates alone (%s): %s"
+                            % (lang, ", ".join("`%s`" % render_type(m) for m in members), ra),
+                            case=case, impl=ra, model=ma, failing_input=True)
+            return True
+        if ma_n != ra_n and mismatch is None:
+            d = None
+            if "ok" in ma_n and "ok" in ra_n:
+                d = l2.text_diff("".join(v for _, v in sorted(ma_n["ok"].items())), "".join(v for _, v in sorted(ra_n["ok"].items())))
+            mismatch = ("generate_types differs from the model on a program with neighbouring type expressions (%s, %s): %s"
+                        % (lang, kind, d or (ma_n, ra_n)), case, ra, ma)
+    if mismatch:
+        what, case, ra, ma = mismatch
+        check.violation(what, case=case, impl=ra, model=ma, failing_input=False,
+                        broken="correspondence L2 generate_types (use sites of formatType; theorem TsV.C05.C05_compositional)")
+        return True
+    return False
+
+
 # ------------------------------------------------------------------ the check
 
 WITNESSES = {
@@ -879,8 +1255,12 @@ def run(check):
                   "mappings of Foo and Vec<u8>, no_pointer_slice), generics [T]; (c) random trees to depth 5 with all 11 "
                   "wrappers, path qualification, lifetimes, array lengths 0-16, random mapping tables whose keys are lookup "
                   "names of sub-trees of the tree itself, random prefixes / generic-parameter lists; (d) whole programs using a "
-                  "random type as field, newtype payload, alias target and const type; non-trivial = the type has a "
-                  "constructor or the configuration has a mapping")
+                  "random type as field, newtype payload, alias target and const type; (e) whole programs (one file, or 2-3 crates "
+                  "of one multi-file run) whose fields, newtype payloads and alias targets are the 3-7 members of a family of type "
+                  "expressions equal up to one component (array length, what is below an Option, generic arguments, map key vs "
+                  "value, element, sequence kind, erased wrappers, nesting depth, `T` declared or not), in an order and its reverse, "
+                  "each use site judged by the expected tree of its own expression and against the translation obtained alone; "
+                  "non-trivial = the type has a constructor or the configuration has a mapping")
     # (a) primitives
     cases = []
     for lang in LANGS:
@@ -920,6 +1300,9 @@ def run(check):
     if helper_generics_part(check):
         return
     if definition_generics_part(check):
+        return
+    # (e) several neighbouring type expressions in one run
+    if neighbours_part(check):
         return
     # Go's acronym pass runs over whole formatted type expressions: a user type must come out the same at every position of a
     # type expression (alone, element, map key / value, generic argument) as where it is defined (the part is shared with C09)
